@@ -294,7 +294,9 @@ def sourceField (depth : Nat) (f : Fields) : P (Fields × Bool) := do
   let r ← mapped (genericField (bs "SOURCE") depth)
   let f := { f with species := r.1 }
   match ← attempt (subfieldName (bs "ORGANISM") depth r.2.2 true) with
-  | none => do pop; pure (f, false)
+  -- 66de3a0: `state.Clear()` (was `state.Pop()`): `tryAllParsers` then finds nothing pushed and
+  -- gives the record up on the spot, whatever an earlier parser had left on the stack
+  | none => do clear; pure (f, false)
   | some _ =>
     let name ← line
     let n := (← getS).rest.length
@@ -406,6 +408,9 @@ def originField (length : Int) (depth : Nat) : P Bytes := do
   let _ ← fieldName (bs "ORIGIN") depth
   let _ ← line
   clear
+  -- the nine column index of the layout numbers at most 1000000020 residues (repair after the
+  -- finding `validateOrigin_wide_index_panics`)
+  if length > 1000000020 then fail
   let n := Origin.toOriginLength length
   -- `state.Request(n)` with n < 0 "succeeds" and `state.Buffer()` slices with end < start
   if n < 0 then panic
